@@ -207,8 +207,8 @@ mc_death_cb(void)
 static void
 mc_sig_cb(int sig)
 {
-    mc_crash_record(sig == SIGABRT ? "abort" : sig == SIGALRM ? "hang" : "signal");
-    _exit(sig == SIGALRM ? 98 : 99);
+    mc_crash_record(sig == SIGABRT ? "abort" : (sig == SIGALRM || sig == SIGPROF) ? "hang" : "signal");
+    _exit((sig == SIGALRM || sig == SIGPROF) ? 98 : 99);
 }
 static void
 mc_atexit_cb(void)
@@ -232,6 +232,7 @@ mc_install_crash_hooks(void)
     signal(SIGSEGV, mc_sig_cb);
     signal(SIGFPE, mc_sig_cb);
     signal(SIGALRM, mc_sig_cb);
+    signal(SIGPROF, mc_sig_cb);
     atexit(mc_atexit_cb);
 }
 
@@ -554,6 +555,7 @@ mc_bfs_replay(mc_bfs_spec *sp, const char *hist)
  * "crash" for the case the child had announced, with the child's stderr, and a new child continues
  * after it.  run(i, arg) returns >0 non-trivial, 0 trivial, <0 violation (already reported). */
 #include <sys/mman.h>
+#include <sys/time.h>
 #include <sys/wait.h>
 #include <fcntl.h>
 typedef struct {
@@ -631,10 +633,22 @@ mc_fork_loop(long long first, long long end, long long step, int batch, int hang
             mc_child_mode = 1;
             for (i = next; i < stop; i += step) {
                 int rc;
-                if (hang_s)
-                    alarm(hang_s);
+                /* a hang is hang_s seconds of CPU time of this process (independent of machine load); the wall-clock
+                 * alarm is only a distant backstop */
+                if (hang_s) {
+                    struct itimerval tv;
+                    memset(&tv, 0, sizeof tv);
+                    tv.it_value.tv_sec = hang_s;
+                    setitimer(ITIMER_PROF, &tv, NULL);
+                    alarm(hang_s * 30);
+                }
                 rc = run(i, arg);
-                alarm(0);
+                if (hang_s) {
+                    struct itimerval tv;
+                    memset(&tv, 0, sizeof tv);
+                    setitimer(ITIMER_PROF, &tv, NULL);
+                    alarm(0);
+                }
                 mc_sh->evals++;
                 if (rc > 0)
                     mc_sh->nontriv++;
@@ -658,7 +672,7 @@ mc_fork_loop(long long first, long long end, long long step, int batch, int hang
             char buf[6000];
             size_t n = 0;
             FILE *ef = fopen(errpath, "r");
-            const char *kind = WIFSIGNALED(st) ? (WTERMSIG(st) == SIGALRM ? "hang" : "signal")
+            const char *kind = WIFSIGNALED(st) ? ((WTERMSIG(st) == SIGALRM || WTERMSIG(st) == SIGPROF) ? "hang" : "signal")
                 : WEXITSTATUS(st) == 98                                  ? "hang"
                 : WEXITSTATUS(st) == 97                                  ? "sanitizer"
                 : WEXITSTATUS(st) == 99                                  ? "abort"
